@@ -223,6 +223,19 @@ class Source:
         self.toks = tokenize(text)
         self.ct = code_toks(self.toks)
 
+    def find_in_macro(self, kind, name, macro):
+        """Items written inside the body of `macro_rules! <macro> { .. }` (any nesting depth)."""
+        ct = self.ct
+        for i in range(len(ct) - 3):
+            if ct[i].text == "macro_rules" and ct[i + 1].text == "!" and ct[i + 2].text == macro and ct[i + 3].text == "{":
+                k = match_close(ct, i + 3)
+                cands = [j for j in range(i + 4, k) if ct[j].kind == "ident" and ct[j].text == kind
+                         and ct[j + 1].kind == "ident" and ct[j + 1].text == name]
+                if not cands:
+                    raise ExtractError(f"{self.path}: {kind} {name} not found in macro `{macro}`")
+                return [self._item_extent(c) for c in cands]
+        raise ExtractError(f"{self.path}: macro_rules! {macro} not found")
+
     def find_item(self, kind, name, impl=None):
         """Return (start_pos, end_pos) in text of the item including leading attributes and doc comments.
         kind: fn | const | static | struct | enum | trait | type. impl: header substring, e.g. 'impl BitVec' or
@@ -512,7 +525,13 @@ class Item:
             ctr = f"__i{count}"
             m_enum = re.fullmatch(r"\((\w+),&(\w+)\)", pat_s)
             m_ref = re.fullmatch(r"&(\w+)", pat_s)
-            if m_enum and expr_s.endswith(".iter().enumerate()"):
+            m_skip = re.fullmatch(r"(.+)\.iter\(\)\.enumerate\(\)\.skip\((.+)\)", expr_s)
+            if m_enum and m_skip:
+                # `for (i, &x) in E.iter().enumerate().skip(N)`: indices N.. of E
+                base, skip = m_skip.group(1), m_skip.group(2)
+                head = f"let mut {ctr}: usize = {skip};\n while {ctr} < {base}.len()"
+                first = f" let {m_enum.group(1)} = {ctr}; let {m_enum.group(2)} = {base}[{ctr}]; {ctr} += 1;"
+            elif m_enum and expr_s.endswith(".iter().enumerate()"):
                 base = expr_s[: -len(".iter().enumerate()")]
                 head = f"let mut {ctr}: usize = 0;\n while {ctr} < {base}.len()"
                 first = f" let {m_enum.group(1)} = {ctr}; let {m_enum.group(2)} = {base}[{ctr}]; {ctr} += 1;"
